@@ -32,7 +32,10 @@ pub fn remove_oscat_comment(source: String) -> String {
                     if c == '\n' {
                         output.push('\n');
                     } else {
-                        output.push(' ');
+                        // One blank per byte so that the positions of what follows do not change
+                        for _ in 0..c.len_utf8() {
+                            output.push(' ');
+                        }
                     }
                 }
 
